@@ -131,5 +131,7 @@ T = {
         ("Config", "as_dict", COMMON, r"__dict__\.items\(\)", "every field"),
         ("System", "collect_config", SYS, r"all_with_config\.items\(\)", "every routine and model"),
         ("System", "_update_config_object", SYS, r"config_option", "every option string"),
+        ("System", "import_models", SYS, r"cls_list", "every model class: its configuration is loaded and checked"),
+        ("System", "import_models", SYS, r"file_classes", "every model file"),
     ],
 }
